@@ -227,6 +227,19 @@ def shrink(case):
 
 
 # -------------------------------------------------------------------------------- implementation
+def _mkval(fe, tag):
+    if fe == 'v2':
+        from ndn import types
+
+        async def v(name, sig, ctx):
+            return types.ValidResult.PASS
+    else:
+        async def v(name, sig):
+            return True
+    v._tag = tag
+    return v
+
+
 def _exc_name(e):
     """exception class, up to subclassing (pygtrie raises ShortKeyError(KeyError) for a key without value)"""
     for cls in (KeyError, IndexError, ValueError, TypeError, AttributeError):
@@ -294,14 +307,27 @@ def run_impl(case):
                 exc = None
                 try:
                     if ev[0] == 'a':
-                        do_attach(obj, mk(ev[2]) if ev[2] is not None else None)
+                        if fe == 'disp':
+                            do_attach(obj, mk(ev[2]) if ev[2] is not None else None)
+                        else:
+                            # every attach brings its own (accepting) validator, tagged with the event index, so that
+                            # the validator in force at a prefix can be observed after a refused attach
+                            do_attach(obj, mk(ev[2]) if ev[2] is not None else None, _mkval(fe, len(trace)))
                     else:
                         do_detach(obj)
                 except Exception as e:      # noqa
                     exc = _exc_name(e)
                 for b in scribble:
                     b[:] = b'\xff' * len(b)
-                trace.append({'ev': ev[0], 'exc': exc})
+                vtag = None
+                if fe != 'disp':
+                    tree = rig.app._fib if fe == 'v2' else rig.app._prefix_tree
+                    try:
+                        node = tree[[bytes.fromhex(h) for h in path_hex(ev[1])]]
+                        vtag = getattr(node.validator, '_tag', None)
+                    except KeyError:
+                        vtag = None
+                trace.append({'ev': ev[0], 'exc': exc, 'vtag': vtag})
                 continue
             _, path, gap, lifetime, tok, down, reps = ev
             name = [bytes.fromhex(h) for h in path_hex(path)]
@@ -498,8 +524,33 @@ def _spec_replay(case, impl):
     return None
 
 
+def _validator_in_force(case, impl):
+    """a refused attach (and a failed detach) changes nothing: also not the validator in force at that prefix;
+    an accepted attach installs its own validator"""
+    if case.get('fe', impl.get('fe')) == 'disp':
+        return None
+    tags_ = {}
+    for k, (ev, rec) in enumerate(zip(case['events'], impl['trace'])):
+        if ev[0] not in ('a', 'd') or 'vtag' not in rec:
+            continue
+        key = tuple(ev[1])
+        if ev[0] == 'a':
+            if rec['exc'] is None and ev[2] is not None:
+                tags_[key] = k
+            elif rec['exc'] is None:
+                tags_.pop(key, None)      # attaching "no handler": outside the property, do not judge this prefix
+                continue
+            want = tags_.get(key)
+            if key in tags_ and rec['vtag'] != want:
+                return (f'event {k}: after a {"refused" if rec["exc"] else "successful"} attach the validator in force at '
+                        f'the prefix is the one of event {rec["vtag"]}, expected event {want}')
+        elif rec['exc'] is None:
+            tags_.pop(key, None)
+    return None
+
+
 def oracle(case, impl):
-    return _spec_replay(case, impl)
+    return _spec_replay(case, impl) or _validator_in_force(case, impl)
 
 
 def _stats(case):
